@@ -19,6 +19,25 @@ import cast
 UNITS = ['stream', 'base64', 'auth', 'clientconn', 'httpparse', 'net', 'dynbuf', 'mime', 'cookie', 'headers', 'httpwrite', 'netfmt', 'cookiewrite', 'jariter', 'hdrname', 'idle', 'datefmt', 'putonwire', 'respreset', 'clientwrite', 'transport', 'transportq', 'lifecycle', 'hdrcoll', 'router', 'routerdispatch', 'hdrnum', 'queryadd']
 
 
+# C02 (what one side serialises the other side parses back) is decided in part by proofs that already serve other properties: the
+# writers' emission contracts on one side, the parser's acceptance contracts on the other.  They are listed here by (unit, proof)
+# instead of repeating 'C02' in every unit file.
+ALSO = {'C02': {
+    'putonwire': None, 'httpwrite': None, 'clientwrite': None, 'hdrnum': None, 'queryadd': None, 'dynbuf': ['DSB_buffer'],
+    'cookiewrite': ['Cookie_write', 'CookieJar_add'], 'cookie': ['Cookie_fromRaw', 'CookieJar_addFromRaw', 'matchValue'],
+    'hdrcoll': ['Collection_add', 'Collection_addRaw', 'Collection_getImpl', 'Collection_tryGetRaw'],
+    'httpparse': ['RequestLineStep_apply', 'ResponseLineStep_apply', 'HeadersStep_apply', 'HeadersStep_grammar', 'BodyStep_apply', 'parseContentLength',
+                  'parseTransferEncoding', 'Chunk_parse', 'ParserBase_parse'],
+}}
+
+
+def serves(pid, unit, proof):
+    if pid in proof.get('props', []):
+        return True
+    sel = ALSO.get(pid, {})
+    return unit in sel and (sel[unit] is None or proof['name'] in sel[unit])
+
+
 def units_available():
     return [u for u in UNITS if os.path.exists(os.path.join(ROOT, 'units', u + '.py'))]
 
@@ -90,7 +109,7 @@ def run(pid, tier, seed, work, a, t0):
     plan = []
     for un in units_available():
         u = pipeline.load_unit(un)
-        ps = [p for p in u.PROOFS if pid in p.get('props', [])]
+        ps = [p for p in u.PROOFS if serves(pid, un, p)]
         if a.only:
             ps = [p for p in ps if p['name'] in a.only.split(',')]
         if tier == 'quick':
